@@ -597,7 +597,7 @@ def run_c07(chk):
             m.append((a, b, k))
         qs.append((t, XP.BINDINGS, es))
         meta.append(m)
-    impl, model = XP.run_queries("qfresh", qs, quirks="r")
+    impl, model = XP.run_queries("qfresh", qs, quirks="rz")
     findings = {f["id"]: f for f in lib.load_findings("C07") if f["kind"] == "known"}
     mfail, tdis = [], []
     sizes = {"empty": 0, "one": 0, "many": 0}
@@ -609,7 +609,7 @@ def run_c07(chk):
         for i in range(0, len(cex), 30):
             part = cex[i:i + 30]
             cq.append((cd, XP.BINDINGS, part + ["(%s)|(%s)" % (e, e) for e in part]))
-    cimpl, cmodel = XP.run_queries("qfresh", cq, quirks="r")
+    cimpl, cmodel = XP.run_queries("qfresh", cq, quirks="rz")
     for (t, b, es), a, m in zip(cq, cimpl, cmodel):
         fa, raw, _ = _fields(a, len(es))
         fm, _, _ = _fields(m, len(es))
@@ -787,7 +787,7 @@ def run_c08(chk):
         es += [f for f, _ in fixed]
         qs.append((t, rng.choice(XP.BINDING_VARIANTS), es))
         meta.append(asts)
-    impl, model = XP.run_queries("qfresh", qs, quirks="r")
+    impl, model = XP.run_queries("qfresh", qs, quirks="rz")
     findings = {f["id"]: f for f in lib.load_findings("C08") if f["kind"] == "known"}
     mfail, tdis = [], []
     differing = 0
@@ -909,7 +909,7 @@ def run_c10(chk):
         # renaming the expression's prefixes together with the caller's bindings
         ren = [e.replace("p:", "P1:").replace("q:", "Q1:").replace("xml:lang", "xml:lang") for e in es]
         qs_re.append((t, "P1=urn:u1;Q1=urn:u2", ren))
-    impl, model = XP.run_queries("qfresh", qs, quirks="r")
+    impl, model = XP.run_queries("qfresh", qs, quirks="rz")
     impl_rd = lib.run_lines(lib.build_harness(), [lib.req("qfresh", t, b, *es) for t, b, es in qs_rd], timeout=900, per_line_resume=True)
     impl_re = lib.run_lines(lib.build_harness(), [lib.req("qfresh", t, b, *es) for t, b, es in qs_re], timeout=900, per_line_resume=True)
     impl_rb = lib.run_lines(lib.build_harness(), [lib.req("qfresh", t, b, *es) for t, b, es in qs_rb], timeout=900, per_line_resume=True)
